@@ -436,20 +436,19 @@ func (w *World) NodeSideKeySource(rec string) (*types.NodeCredentials, error) {
 			encName := w.EncName(ni.EncryptionPublicKeyBytes)
 			if ek, ok := w.EncKeys[encName]; ok {
 				sp, err := ecdh.X25519().NewPrivateKey(ni.ServerEncryptionPrivateKeyBytes)
-				if err != nil {
-					return nil, err
+				if err == nil {
+					return &types.NodeCredentials{
+						CertificatePublicKeyPkix:       ck.Pkix,
+						EncryptionPrivateKeyBytes:      ek.Priv,
+						EncryptionPrivateKeyType:       types.KEYTYPE_X25519,
+						ServerEncryptionPublicKeyBytes: sp.PublicKey().Bytes(),
+						ServerEncryptionPublicKeyType:  types.KEYTYPE_X25519,
+					}, nil
 				}
-				return &types.NodeCredentials{
-					CertificatePublicKeyPkix:       ck.Pkix,
-					EncryptionPrivateKeyBytes:      ek.Priv,
-					EncryptionPrivateKeyType:       types.KEYTYPE_X25519,
-					ServerEncryptionPublicKeyBytes: sp.PublicKey().Bytes(),
-					ServerEncryptionPublicKeyType:  types.KEYTYPE_X25519,
-				}, nil
 			}
 		}
 	}
-	// unrelated material
+	// unrelated material (also for records that hold no usable server key)
 	priv := make([]byte, 32)
 	rand.Read(priv)
 	spriv := make([]byte, 32)
@@ -561,10 +560,11 @@ type NodeProj struct {
 	PrevCK  string `json:"prevck"` // previous_certificate_public_key_pkix
 	Bundles int    `json:"bundles"`
 	Cert    string `json:"cert"` // name of the key in certificate_public_key_pkix (should equal the map key)
+	Kt      string `json:"kt"`   // "ed" | "other": type of the stored certificate public key
 }
 
 func AbsentNode() NodeProj {
-	return NodeProj{Nonce: None, Enc: None, State: None, Nid: None, PrevK: None, PrevEnc: None, PrevCK: None, Cert: None}
+	return NodeProj{Nonce: None, Enc: None, State: None, Nid: None, PrevK: None, PrevEnc: None, PrevCK: None, Cert: None, Kt: "ed"}
 }
 
 type TokProj struct {
@@ -606,6 +606,12 @@ func (w *World) Project(certNames, tokNames []string) Proj {
 			PrevCK:  w.CertName(ni.PreviousCertificatePublicKeyPkix),
 			Bundles: len(ni.CertificateBundles),
 			Cert:    w.CertName(ni.CertificatePublicKeyPkix),
+			Kt:      "other",
+		}
+		if pk, err := x509.ParsePKIXPublicKey(ni.CertificatePublicKeyPkix); err == nil {
+			if _, ok := pk.(ed25519.PublicKey); ok {
+				np.Kt = "ed"
+			}
 		}
 		if ni.NodeId != "" {
 			np.Nid = ni.NodeId
